@@ -244,6 +244,13 @@ func c03Directed() []struct {
 		mk("dead-code-after-return", decl("x", V("fi")), ret(V("x")), asg("x", I(0)), ret(I(7))),
 		mk("const-branch-with-decl", iff(B(true), decl("t", V("fi")), ret(V("t"))), ret(I(0))),
 		mk("const-false-branch", iff(B(false), ret(I(1))), ret(V("fi"))),
+		mk("while-flag-cleared-in-body", decl("more", B(true)), decl("n", I(0)), &gen.Stmt{K: "while", Name: "w", E: bin("&&", V("more"), bin("<", V("w"), I(9))), Body: []*gen.Stmt{asg("w", bin("+", V("w"), I(5))), asg("n", bin("+", V("n"), I(5))), asg("more", B(false))}}, ret(V("n"))),
+		mk("while-cursor-copied-in-body", decl("cur", I(5)), decl("nxt", I(1000)), decl("n", I(0)), &gen.Stmt{K: "while", Name: "w", E: bin("<", V("cur"), I(100)), Body: []*gen.Stmt{asg("w", bin("+", V("w"), I(5))), asg("nxt", bin("*", V("cur"), I(3))), asg("n", bin("+", V("n"), I(5))), asg("cur", V("nxt"))}}, ret(V("n"))),
+		mk("while-limit-from-variable", decl("lim", V("fi")), decl("n", I(0)), &gen.Stmt{K: "while", Name: "w", E: bin("<", V("w"), I(4)), Body: []*gen.Stmt{asg("w", bin("+", V("w"), I(5))), asg("n", bin("+", V("n"), V("lim")))}}, ret(V("n"))),
+		mk("for-accumulate", decl("s", I(5)), &gen.Stmt{K: "for", Name: "it", E: &gen.Expr{K: "arr", A: []*gen.Expr{I(5), I(6), I(7)}}, Body: []*gen.Stmt{asg("s", bin("+", V("s"), V("it")))}}, ret(V("s"))),
+		mk("for-last-wins", decl("s", I(5)), &gen.Stmt{K: "for", Name: "it", E: &gen.Expr{K: "arr", A: []*gen.Expr{I(5), I(6), I(7)}}, Body: []*gen.Stmt{asg("s", V("it"))}}, ret(V("s"))),
+		mk("reassign-then-read", decl("a", I(5)), asg("a", bin("+", V("a"), V("fi"))), decl("b", V("a")), asg("a", I(7)), ret(bin("+", bin("*", V("b"), I(10)), V("a")))),
+		mk("switch-assign", decl("s", I(5)), &gen.Stmt{K: "switch", E: V("fi"), Cases: []gen.Case{{Val: I(7), Body: []*gen.Stmt{asg("s", I(70))}}, {Body: []*gen.Stmt{asg("s", I(90))}}}}, ret(V("s"))),
 	}
 	// algebraic identities on every free variable shape
 	for _, v := range free {
@@ -293,7 +300,7 @@ func c03Worker(in, out string) {
 			g := gen.New(rng, c03Features())
 			prog = g.Program(2 + rng.Intn(7))
 			label = "random-full-profile"
-			sigExtra = ":full-profile"
+			sigExtra = ":full-profile:triggers=" + c03Triggers(prog)
 		}
 		pattern, _ := prog.RoutePath("/t")
 		src := prog.Source(pattern)
@@ -344,4 +351,95 @@ func checkC03(tier string) {
 	r.RunBatch(mon.Batch{Worker: "c03", N: n, Chunk: (n + 15) / 16, Parallel: 16, Params: c03Params{}, Timeout: 60 * time.Minute, MemKB: 8 << 20, OnDeath: onDeath})
 	r.Floor(500)
 	r.Finish()
+}
+
+// c03Triggers names the shapes of the recorded optimizer findings that occur in p:
+// "identity" (an operator with a constant operand next to a non-constant one, x op x, or a
+// doubled unary), "status" (a status return), "branch-assign" (a reassignment inside an
+// if/else/switch body). A full-profile program that fails without any of them is a new defect.
+func c03Triggers(p *gen.Prog) string {
+	t := map[string]bool{}
+	var isConst func(e *gen.Expr) bool
+	isConst = func(e *gen.Expr) bool {
+		switch e.K {
+		case "int", "float", "str", "bool", "null":
+			return true
+		case "un", "bin":
+			for _, a := range e.A {
+				if !isConst(a) {
+					return false
+				}
+			}
+			return true
+		}
+		return false
+	}
+	var we func(e *gen.Expr)
+	we = func(e *gen.Expr) {
+		if e == nil {
+			return
+		}
+		if e.K == "bin" {
+			if isConst(e.A[0]) != isConst(e.A[1]) || gen.PrintExpr(e.A[0]) == gen.PrintExpr(e.A[1]) {
+				t["identity"] = true
+			}
+		}
+		if e.K == "un" && len(e.A) == 1 && e.A[0].K == "un" {
+			t["identity"] = true
+		}
+		for _, a := range e.A {
+			we(a)
+		}
+	}
+	counters := map[string]bool{}
+	inLoop := 0
+	var ws func(ss []*gen.Stmt, inBranch bool)
+	ws = func(ss []*gen.Stmt, inBranch bool) {
+		for _, s := range ss {
+			we(s.E)
+			switch s.K {
+			case "retst":
+				t["status"] = true
+			case "assign":
+				if inBranch {
+					t["branch-assign"] = true
+				}
+				if inLoop > 0 && !counters[s.Name] {
+					t["loop-assign"] = true
+				}
+			case "while", "for", "fori":
+				if s.K == "while" {
+					counters[s.Name] = true
+				}
+				inLoop++
+				ws(s.Body, inBranch)
+				inLoop--
+				continue
+			case "if":
+				ws(s.Body, true)
+				ws(s.Else, true)
+				if s.ElseIf != nil {
+					ws([]*gen.Stmt{s.ElseIf}, true)
+				}
+				continue
+			case "switch":
+				for _, c := range s.Cases {
+					we(c.Val)
+					ws(c.Body, true)
+				}
+				continue
+			}
+			ws(s.Body, inBranch)
+		}
+	}
+	ws(p.Body, false)
+	var ks []string
+	for k := range t {
+		ks = append(ks, k)
+	}
+	sortStr(ks)
+	if len(ks) == 0 {
+		return "none"
+	}
+	return strings.Join(ks, "+")
 }
